@@ -410,6 +410,32 @@ func (w *world) putBlob(ws []string) string {
 				w.ref(ms[0]), jsonStr(name))
 			return w.store(id, kind, js)
 		}
+	case "odd":
+		// a blob of camliType <ctype> that carries the link field <field> of another type
+		if len(args) != 3 {
+			return "bad-op"
+		}
+		ms, ok := parseIDs(args[2])
+		if !ok || len(ms) == 0 {
+			return "bad-op"
+		}
+		js, signIt, ok := w.oddJSON(id, name, args[0], args[1], ms)
+		if !ok {
+			return "bad-op"
+		}
+		if signIt {
+			// a real, signed claim that carries the foreign field
+			b, err := schema.BlobFromReader(blob.RefFromString(js), strings.NewReader(js))
+			if err != nil {
+				return "err"
+			}
+			signed, ok := sign(b.Builder())
+			if !ok || !strings.Contains(signed, "camliSig") {
+				return "err"
+			}
+			js = signed
+		}
+		return w.store(id, "odd", js)
 	case "raw":
 		if len(args) != 1 {
 			return "bad-op"
@@ -427,6 +453,107 @@ func (w *world) putBlob(ws []string) string {
 		return w.store(id, kind, txt)
 	}
 	return "bad-op"
+}
+
+// the camliTypes (and claim types) an odd blob can have, and the link fields it can carry
+var oddTypes = []string{"permanode", "claim-set-attribute", "claim-add-attribute", "claim-del-attribute", "claim-share", "claim-delete",
+	"claim-unknown", "symlink", "fifo", "socket", "keep", "inode", "share", "unknown", "none", "jsonarray",
+	"file", "bytes", "directory", "static-set"}
+var oddFields = []string{"parts-blobRef", "parts-bytesRef", "parts-both", "entries", "members", "mergeSets", "target", "camliContent", "permaNode"}
+
+// genuineField: <field> is a link field of <ctype> itself (not odd)
+func genuineField(ctype, field string) bool {
+	switch ctype {
+	case "file", "bytes":
+		return strings.HasPrefix(field, "parts-")
+	case "directory":
+		return field == "entries"
+	case "static-set":
+		return field == "members" || field == "mergeSets"
+	}
+	return false
+}
+
+func inList(xs []string, x string) bool {
+	for _, y := range xs {
+		if y == x {
+			return true
+		}
+	}
+	return false
+}
+
+// oddJSON renders `blob <id> <extra> odd <ctype> <field> <refs>`
+func (w *world) oddJSON(id int, name, ctype, field string, ms []int) (js string, signIt, ok bool) {
+	if !inList(oddTypes, ctype) || !inList(oddFields, field) || genuineField(ctype, field) {
+		return "", false, false
+	}
+	if ctype == "claim-delete" && field == "target" {
+		return "", false, false // that would be a real delete claim of the ref
+	}
+	q := func(id int) string { return jsonStr(w.ref(id).String()) }
+	list := func() string {
+		s := make([]string, len(ms))
+		for i, m := range ms {
+			s[i] = q(m)
+		}
+		return "[" + strings.Join(s, ", ") + "]"
+	}
+	var f string
+	switch field {
+	case "parts-blobRef", "parts-bytesRef", "parts-both":
+		var ps []string
+		for i, m := range ms {
+			k := "blobRef"
+			if field == "parts-bytesRef" || (field == "parts-both" && i%2 == 1) {
+				k = "bytesRef"
+			}
+			ps = append(ps, fmt.Sprintf(`{"%s": %s, "size": 7}`, k, q(m)))
+		}
+		f = `"parts": [` + strings.Join(ps, ", ") + `]`
+	case "entries":
+		f = `"entries": ` + q(ms[0])
+	case "members":
+		f = `"members": ` + list()
+	case "mergeSets":
+		f = `"mergeSets": ` + list()
+	case "target":
+		f = `"target": ` + q(ms[0])
+	case "camliContent":
+		f = `"attribute": "camliContent", "value": ` + q(ms[0])
+	case "permaNode":
+		f = `"permaNode": ` + q(ms[0])
+	}
+	if len(ms) > 1 && (field == "entries" || field == "target" || field == "camliContent" || field == "permaNode") {
+		name += " also " + w.refText(ms[1:])
+	}
+	f += `, "fileName": ` + jsonStr(name)
+	head := `"camliVersion": 1, `
+	switch {
+	case ctype == "jsonarray":
+		return "[{" + f + "}]", false, true
+	case ctype == "none":
+		return "{" + f + "}", false, true
+	case ctype == "unknown":
+		return "{" + head + `"camliType": "frobnicate", ` + f + "}", false, true
+	case strings.HasPrefix(ctype, "claim-"):
+		ct := strings.TrimPrefix(ctype, "claim-")
+		extra := ""
+		if ct == "share" {
+			extra = `"authType": "notharef", "transitive": true, `
+		}
+		if ct == "unknown" {
+			ct = "frobnicate"
+		}
+		// odd ids alternate: a really signed claim / an unsigned one
+		return "{" + head + `"camliType": "claim", "claimType": ` + jsonStr(ct) + `, ` + extra + f + "}", id%2 == 0, true
+	case ctype == "symlink":
+		return "{" + head + `"camliType": "symlink", "symlinkTarget": "../x", ` + f + "}", false, true
+	case ctype == "permanode":
+		return "{" + head + fmt.Sprintf(`"camliType": "permanode", "random": "r%d", `, id) + f + "}", false, true
+	default:
+		return "{" + head + `"camliType": ` + jsonStr(ctype) + ", " + f + "}", false, true
+	}
 }
 
 func (w *world) del(ws []string) string {
